@@ -12,7 +12,7 @@ Definition tr_rel (t t' : ptracker) : Prop :=
 
 Definition CT : pcfg :=
   {| cInv := fun s => tr_ok (ps_rec s); cWeak := fun s => tr_ok (ps_rec s);
-     cRel := fun s s' => tr_rel (ps_rec s) (ps_rec s'); cPanicOk := True |}.
+     cRel := fun s s' => tr_rel (ps_rec s) (ps_rec s'); cPanicOk := True; cFuelOk := True |}.
 
 Lemma CT_rel : prel_ok CT.
 Proof.
@@ -50,7 +50,7 @@ Qed.
 Lemma rec_frame {A} (m : PM A) :
   (forall s a s', m s = POk (a, s') -> ps_rec s' = ps_rec s) -> spec CT m.
 Proof.
-  intros Hm. apply post_partial; [exact I|]. cbn. intros s Hs a s' E. rewrite (Hm _ _ _ E).
+  intros Hm. apply post_partial; [exact I|exact I|]. cbn. intros s Hs a s' E. rewrite (Hm _ _ _ E).
   split; [exact Hs|]. unfold tr_rel. lia.
 Qed.
 
@@ -110,7 +110,7 @@ Proof.
   - intros cp k. apply rec_frame. intros s a s'. unfold p_wrap_node, p_lift_b.
     destruct (pb_start_node_at _ _ _); try discriminate. intros [= <- <-]. reflexivity.
   - (* the recursion guard *)
-    intros A B l body k Hl Hb Hk. apply post_partial; [exact I|]. cbn. intros s Hs r s' E.
+    intros A B l body k Hl Hb Hk. apply post_partial; [exact I|exact I|]. cbn. intros s Hs r s' E.
     unfold p_rec_guard in E. apply bind_ok in E as (reached & s1 & Ec & E).
     unfold p_rec_check_and_increment in Ec.
     destruct (ptracker_check_and_increment (ps_rec s)) as [[b t1]| |] eqn:Et; try discriminate.
@@ -138,7 +138,7 @@ Proof.
     intros [= <- <-]. reflexivity.
 Qed.
 
-Definition CT_ok : pcfg_ok CT := atoms_cfg_ok CT CT_atoms.
+Definition CT_ok : pcfg_ok CT := atoms_cfg_ok CT CT_atoms I.
 
 (* ---- the entries *)
 Lemma init_tr_ok dbg rl items : tr_ok (ps_rec (p_init_state dbg rl items)).
